@@ -31,7 +31,7 @@ def _xn_active_in_call(xn: ExecNode, results: Dict[Identifier, Any]) -> bool:
     """
     if xn.active is None:
         return True
-    return bool(results[xn.active.id])
+    return bool(xn.active.result(results))
 
 
 def copy_non_setup_xns(x_nodes: StrictDict[str, ExecNode]) -> StrictDict[str, ExecNode]:
